@@ -164,7 +164,7 @@ def run_case(c):
     # scaling Phi -> s Phi, m -> t m
     q = qs[0]
     lam = np.linalg.eigvalsh(_eig(dm, q, lang))
-    s_, t_ = float(10 ** rng.uniform(-3, 3)), float(10 ** rng.uniform(-3, 3))
+    s_, t_ = float(10 ** rng.uniform(-10, 4)), float(10 ** rng.uniform(-3, 3))  # force-constant units span many decades (and cut-off tails are small): no absolute scale may matter
     m0 = np.array(pr.masses)
     order_fc_first = bool(rng.integers(2))  # either order of the two assignments is legitimate and must give the same object
     if order_fc_first:
